@@ -216,8 +216,8 @@ class StyleProperties:
       if xml_attrib == "auto":
 
         return styles.ExtentType(
-          height=styles.LengthType(1, styles.LengthType.Units.rh),
-          width=styles.LengthType(1, styles.LengthType.Units.rw)
+          height=styles.LengthType(100, styles.LengthType.Units.rh),
+          width=styles.LengthType(100, styles.LengthType.Units.rw)
         )
 
       s = xml_attrib.split(" ")
